@@ -21,13 +21,16 @@
 (* and invalid members, keep a member iff its decoded key and value are    *)
 (* valid, 180 members / 4096 bytes per member / 8192 bytes in total.       *)
 (* Where the statement is silent the result carries a wildcard ("?": zero  *)
-(* or one arbitrary valid entry) or alternatives.                          *)
+(* or one arbitrary valid entry) or alternatives.  A key that occurs in    *)
+(* more than one valid member is a band of its own (Pat / Allowed below):  *)
+(* which occurrence survives, how many and where is open - every OTHER     *)
+(* valid member is kept exactly once, in header order.                     *)
 (***************************************************************************)
 EXTENDS Naturals, Sequences, FiniteSets, TLC, Json, SequencesExt
 
 CONSTANTS Dev,     \* subset of AllDevs
           Hist,    \* BOOLEAN: record the behaviour
-          Menu,    \* "ops" | "rt1" | "rt2" | "parse" | "mix"
+          Menu,    \* "ops" | "rt1" | "rt2" | "parse" | "dup" | "mix"
           MaxOps,
           AnyObj,  \* Menu "ops": operations on every object created so far (else only the newest)
           VLen     \* Menu "rt1": maximal length of generated values
@@ -159,6 +162,54 @@ FromAlts(h) ==
 \* the propagator: nothing valid -> the context keeps the baggage it had
 Extract(ctxBag, r) == IF r = <<>> THEN ctxBag ELSE r
 
+(* ---- a key repeated in the header ---------------------------------------- *)
+\* The statement says the valid members are kept, in order; it does not say what a key that is stated by
+\* SEVERAL valid members yields (all occurrences? the first? the last? at which position?).  That is left
+\* open, and only that: an extraction result is described by the pattern
+\*   u  the items whose key occurs once (wildcards included), in header order: kept exactly so
+\*   d  one record per repeated key k: vals = the values its valid members state, n = how many there are;
+\*      the result holds between 1 and n entries with key k, each with a value from vals, anywhere.
+\* Strings are compared in normal form (adjacent runs of one class merged): "aa" = "a" "a".
+RECURSIVE NormR(_, _)
+NormR(s, i) == IF i > Len(s) THEN <<>>
+               ELSE LET r == NormR(s, i + 1) IN
+                    IF s[i].n = 0 THEN r
+                    ELSE IF r # <<>> /\ r[1].c = s[i].c THEN <<Rn(s[i].c, s[i].n + r[1].n)>> \o Tail(r)
+                    ELSE <<s[i]>> \o r
+Norm(s) == NormR(s, 1)
+Definite(items) == {i \in 1..Len(items) : items[i] # Wild}
+NKeys(items) == [i \in 1..Len(items) |-> IF items[i] = Wild THEN <<>> ELSE Norm(items[i][1])]
+Pat(items) ==
+  LET nk   == NKeys(items)
+      def  == Definite(items)
+      occ(k) == {i \in def : nk[i] = k}
+      dk   == {k \in {nk[i] : i \in def} : Cardinality(occ(k)) > 1}
+      uidx == SelectSeq([i \in 1..Len(items) |-> i], LAMBDA i : i \notin def \/ nk[i] \notin dk)
+  IN [u |-> [i \in 1..Len(uidx) |-> items[uidx[i]]],
+      d |-> SetToSeq({[k |-> k, vals |-> {Norm(items[i][2]) : i \in occ(k)}, n |-> Cardinality(occ(k))] : k \in dk})]
+HasDup(items) == Pat(items).d # <<>>
+\* is the concrete list res (no wildcards) an allowed outcome for items (no wildcards)?
+NormL(B) == [i \in 1..Len(B) |-> <<Norm(B[i][1]), Norm(B[i][2])>>]
+Allowed(items, res) ==
+  LET p  == Pat(items)
+      dk == {p.d[i].k : i \in DOMAIN p.d}
+      r  == NormL(res)
+  IN /\ SelectSeq(r, LAMBDA e : e[1] \notin dk) = NormL(p.u)
+     /\ \A i \in DOMAIN p.d :
+          LET ix == {j \in 1..Len(r) : r[j][1] = p.d[i].k} IN
+            /\ Cardinality(ix) \in 1..p.d[i].n
+            /\ \A j \in ix : r[j][2] \in p.d[i].vals
+\* four implementations the band must admit: every occurrence kept; the first / the last occurrence only, in
+\* place; the last occurrence moved to the front (what Set does)
+SameKeyLater(items, i) == \E j \in (i + 1)..Len(items) : Norm(items[j][1]) = Norm(items[i][1])
+SameKeyEarlier(items, i) == \E j \in 1..(i - 1) : Norm(items[j][1]) = Norm(items[i][1])
+Pick(items, keep(_)) == LET idx == SelectSeq([i \in 1..Len(items) |-> i], keep) IN [i \in 1..Len(idx) |-> items[idx[i]]]
+FirstWins(items) == Pick(items, LAMBDA i : ~SameKeyEarlier(items, i))
+LastWins(items)  == Pick(items, LAMBDA i : ~SameKeyLater(items, i))
+LastWinsFront(items) == Pick(items, LAMBDA i : SameKeyEarlier(items, i) /\ ~SameKeyLater(items, i))
+                        \o Pick(items, LAMBDA i : ~SameKeyEarlier(items, i) /\ ~SameKeyLater(items, i))
+RemoveAt1(s, i) == SubSeq(s, 1, i - 1) \o SubSeq(s, i + 1, Len(s))
+
 (* ---- Set / Delete -------------------------------------------------------- *)
 HasK(B, k) == \E i \in 1..Len(B) : B[i][1] = k
 WithoutK(B, k) == SelectSeq(B, LAMBDA e : e[1] # k)
@@ -257,6 +308,49 @@ Triple(m) == Join(<<P1, m, P2>>)
 ParseHeaders == {Single(m) : m \in MemberMenu} \cup {Triple(m) : m \in MemberMenu} \cup LimitHeaders
                 \cup {<<Comma>>, <<Comma, Comma, W("sp"), Comma>>, <<Comma, Equal, Comma>>}
 
+\* ---- headers that state a key more than once (Menu "dup") ----
+\* A shape is a sequence of <<key id, kind>>: three keys ("a"; "b b"; "aa" - "a" is a proper prefix of it), each
+\* spelled differently at its odd and even occurrences (literal / escaped token character / blanks around / runs
+\* split), kind "ok" (valid) or "bad" (same key, malformed escape in the value: the member is dropped).  The value
+\* depends on the POSITION (so every occurrence states another value; position 3 an empty one, even positions
+\* carry ;metadata).  All shapes up to 5 valid members over the three keys, and up to 4 members with dropped ones
+\* mixed in (any number among <= 3 members, one among 4): a repeated key adjacent / far apart / first / last / three and more times / two repeated keys / a
+\* dropped member between or re-stating the key - each followed by 0..3 members with keys of their own.
+DKeyTok(kid, occ) ==
+  CASE kid = 1 -> IF occ % 2 = 1 THEN <<L("a")>> ELSE <<E("a")>>
+    [] kid = 2 -> IF occ % 2 = 1 THEN <<L("b"), E("sp"), L("b")>> ELSE <<W("sp"), L("b"), E("sp"), L("b"), W("tab")>>
+    [] kid = 3 -> IF occ % 2 = 1 THEN <<T("lit", "a", 2)>> ELSE <<L("a"), E("a")>>
+DValTok(p, kind) ==
+  IF kind = "bad" THEN <<T("lit", "b", p), B_("g1")>>
+  ELSE IF p = 3 THEN <<>>
+  ELSE IF p % 2 = 0 THEN <<T("lit", "b", p), W("sc"), T("raw", "a", p)>>
+  ELSE <<T("lit", "b", p)>>
+OccIn(sh, p) == Cardinality({q \in 1..p : sh[q][1] = sh[p][1]})
+ShapeHeader(sh) == Join([p \in 1..Len(sh) |-> Mem(DKeyTok(sh[p][1], OccIn(sh, p)), DValTok(p, sh[p][2]))])
+Repeats(sh) == \E p, q \in 1..Len(sh) : p < q /\ sh[p][1] = sh[q][1]
+ShapesOver(S, lo, hi) == {sh \in UNION {[1..n -> S] : n \in lo..hi} : Repeats(sh)}
+OkSyms  == {<<kid, "ok">> : kid \in 1..3}
+MixSyms == {<<1, "ok">>, <<1, "bad">>, <<2, "ok">>, <<2, "bad">>, <<3, "ok">>}
+NBad(sh) == Cardinality({p \in 1..Len(sh) : sh[p][2] = "bad"})
+DupShapes == ShapesOver(OkSyms, 2, 5) \cup {sh \in ShapesOver(MixSyms, 2, 4) : NBad(sh) >= 1 /\ (Len(sh) = 4 => NBad(sh) = 1)}
+\* ... and near the limits: 179 / 180 members one of which re-states an earlier key (early, in the middle, at the
+\* end; eight of them), a member of 4096 bytes and a small one with the same key, an over-sized (dropped) member
+\* with the key of a valid one, a header of exactly 8192 bytes / 8193 bytes whose last member re-states the first key
+FDup(i) == Mem(<<T("lit", "a", 2 + (i \div 14)), T("lit", "b", 1 + (i % 14))>>, <<L("b")>>)
+DupLimitHeaders ==
+  {Join(InsertAt(Fill(178), p, FDup(1))) : p \in {2, 179}}
+  \cup {Join(Append(Fill(179), FDup(90))), Join(Fill(170) \o [i \in 1..8 |-> FDup(20 * i)])}
+  \cup {Join(<<P1, BigMem("a", 1, 4094), Mem(PlainK, <<L("b")>>), P2, Filler(1), Filler(2)>>),
+        Join(<<Mem(PlainK, <<L("b")>>), P1, BigMem("a", 1, 4096), P2, Filler(1)>>),
+        Join(<<BigMem("a", 1, 4094), BigMem("a", 1, 4000), P1, P2>>),
+        Join(<<BigMem("a", 1, 4080), Mem(PlainK, <<L("b")>>), BigMem("a", 2, 4080), P1, P2>>)}
+  \cup {Join(<<BigMem("a", 1, 4089), BigMem("a", 2, 4088), Mem(PlainK, <<T("lit", "b", x)>>)>>) : x \in {6, 7}}
+DupHeaders == {ShapeHeader(sh) : sh \in DupShapes} \cup DupLimitHeaders
+\* members for Menu "mix" with keys other than "a" (most of the member menu states the key "a")
+MixMembers == {Mem(DKeyTok(kid, occ), v) : kid \in 1..3, occ \in 1..2,
+                                           v \in {<<L("a")>>, <<T("lit", "b", 2), W("sc"), W("a")>>, <<>>}}
+              \cup {P1, P2, Filler(1), Filler(2)}
+
 B0 == <<<<Str(<<"b", "b", "a">>), Str(<<"a", "sp">>)>>>>      \* a baggage already in the context
 
 VARIABLES objs,     \* sequence of baggage values (every object created so far)
@@ -270,16 +364,17 @@ Ent(r) == IF Hist THEN Append(hist, r) ELSE hist
 \* the record that describes one extraction to the replayer
 AltSeq(h, c0) == LET ctxB == IF c0 = "b0" THEN B0 ELSE <<>>
                      S == {Extract(ctxB, r) : r \in FromAlts(h)} \ {Extract(ctxB, FromHeader(h))}
-                 IN SetToSeq(S)
+                     q == SetToSeq(S)
+                 IN [i \in 1..Len(q) |-> Pat(q[i])]
 HasWild(h) == \E j \in 1..Len(Verdicts(h)) : Verdicts(h)[j].v = "wild"
 XRec(h, c0) == [op |-> "extract", hdr |-> h, ctx0 |-> c0, b0 |-> B0,
-                exp |-> Extract(IF c0 = "b0" THEN B0 ELSE <<>>, FromHeader(h)),
+                exp |-> Pat(Extract(IF c0 = "b0" THEN B0 ELSE <<>>, FromHeader(h))),
                 alt |-> AltSeq(h, c0),
                 dev |-> IF FromHeaderDev(h) # FromHeader(h)
                           THEN <<[dev |-> "metadata-nonprintable-kept",
-                                  res |-> Extract(IF c0 = "b0" THEN B0 ELSE <<>>, FromHeaderDev(h))],
+                                  res |-> Pat(Extract(IF c0 = "b0" THEN B0 ELSE <<>>, FromHeaderDev(h)))],
                                  [dev |-> "metadata-nonprintable-kept",
-                                  res |-> Extract(IF c0 = "b0" THEN B0 ELSE <<>>, FromHeaderDevCut(h))]>>
+                                  res |-> Pat(Extract(IF c0 = "b0" THEN B0 ELSE <<>>, FromHeaderDevCut(h)))]>>
                           ELSE <<>>]
 
 InitObjs ==
@@ -289,9 +384,9 @@ InitObjs ==
 
 Init ==
   /\ devUsed = {} /\ nops = 0
-  /\ IF Menu = "parse"
-       THEN \E h \in ParseHeaders : \E c0 \in {"none", "b0"} :
-              /\ (c0 = "b0" => ~HasWild(h))
+  /\ IF Menu \in {"parse", "dup"}
+       THEN \E h \in (IF Menu = "parse" THEN ParseHeaders ELSE DupHeaders) : \E c0 \in {"none", "b0"} :
+              /\ (c0 = "b0" => ~HasWild(h) /\ Menu = "parse")
               /\ hdr = h /\ objs = <<>>
               /\ last = [op |-> "extract", hdr |-> h, ctx0 |-> c0, res |-> FromHeader(h)]
               /\ hist = IF Hist THEN <<XRec(h, c0)>> ELSE <<>>
@@ -327,13 +422,17 @@ ARoundTrip == nops < MaxOps /\ Menu \in {"ops", "rt1", "rt2"} /\ \E o \in Objs :
              /\ nops' = nops + 1 /\ UNCHANGED <<hdr, devUsed>>
              /\ hist' = Ent([op |-> "rt", o |-> o, members |-> Members1(objs[o]),
                              exp |-> Extract(<<>>, FromHeader(ToHeader(objs[o])))])
-\* Menu "mix": a header is assembled from random members of the menu, then extracted.  Two members
-\* with the same decoded key are never combined (what a duplicate key yields is not pinned).
+\* Menu "mix": a header is assembled from random members of the menu, then extracted.  Members may re-state the
+\* key of an earlier member (valid or dropped); only a member whose own outcome is open (wildcard) or subject
+\* to a deviation never shares its key with another one (the two bands would have to be multiplied).
 DKey(m0) == LET m == Trim(m0)
                 eqs == {i \in 1..Len(m) : IsRawC(m[i], "eq")}
-            IN IF m = <<>> \/ eqs = {} THEN <<>> ELSE Dec(Trim(SubSeq(m, 1, MinS(eqs) - 1)))
-AAppendMember == Menu = "mix" /\ nops < MaxOps /\ \E m \in MemberMenu :
-             /\ (nops > 0 /\ DKey(m) # <<>>) => \A j \in 1..Len(MembersOf(hdr)) : DKey(MembersOf(hdr)[j]) # DKey(m)
+            IN IF m = <<>> \/ eqs = {} THEN <<>> ELSE Norm(Dec(Trim(SubSeq(m, 1, MinS(eqs) - 1))))
+Solitary(m) == ParseMember(m).v \in {"wild", "devkeep"}
+AAppendMember == Menu = "mix" /\ nops < MaxOps /\ \E m \in MemberMenu \cup MixMembers :
+             /\ (nops > 0 /\ DKey(m) # <<>>) =>
+                   \A j \in 1..Len(MembersOf(hdr)) :
+                      (Solitary(m) \/ Solitary(MembersOf(hdr)[j])) => DKey(MembersOf(hdr)[j]) # DKey(m)
              /\ hdr' = IF nops = 0 THEN m ELSE hdr \o <<Comma>> \o m
              /\ nops' = nops + 1 /\ UNCHANGED <<objs, devUsed>>
              /\ last' = [op |-> "extract", hdr |-> hdr', res |-> FromHeader(hdr')]
@@ -373,6 +472,21 @@ ExtractValid == last.op = "extract" =>
                  /\ \A i \in 1..Len(last.res) :
                       last.res[i] = Wild \/ (ValidKeyS(last.res[i][1]) /\ ValidValS(last.res[i][2]))
                  /\ (Size(last.hdr) > MaxHeader => last.res = <<>>)
+\* a repeated key: the band is as wide as claimed (keeping every occurrence, the first, the last in place or
+\* moved to the front are all allowed) and no wider (losing any member whose key is its own, or exchanging
+\* two of them, is not allowed)
+NoWildIn(items) == \A i \in 1..Len(items) : items[i] # Wild
+DupBand == (last.op = "extract" /\ NoWildIn(last.res)) =>
+             LET it == last.res
+                 own == {i \in 1..Len(it) : ~SameKeyEarlier(it, i) /\ ~SameKeyLater(it, i)}
+             IN /\ Allowed(it, it) /\ Allowed(it, FirstWins(it)) /\ Allowed(it, LastWins(it)) /\ Allowed(it, LastWinsFront(it))
+                /\ Len(it) <= 8 =>
+                     /\ \A i \in own : ~Allowed(it, RemoveAt1(it, i))
+                     /\ \A i, j \in own : i < j =>
+                           ~Allowed(it, [x \in 1..Len(it) |-> IF x = i THEN it[j] ELSE IF x = j THEN it[i] ELSE it[x]])
+\* generated headers with a repeated key stay within the member-count limit (which members "the first 180" are
+\* when some of them share a key is not pinned)
+DupWithinLimit == (last.op = "extract" /\ HasDup(last.res)) => Len(MembersOf(last.hdr)) <= MaxMembers
 OriginalUntouched == [][\A i \in 1..Len(objs) : objs'[i] = objs[i]]_vars
 
 (* ---- behaviour export ------------------------------------------------------ *)
